@@ -65,6 +65,14 @@ type Resp struct {
 	HasInfo    bool   `json:"has_info,omitempty"`    // gRPC: RetryInfo attached
 	InfoNs     int64  `json:"info_ns,omitempty"`     // gRPC: RetryInfo.retry_delay
 	Partial    bool   `json:"partial,omitempty"`     // success carrying a partial-success message
+	PS         *PSpec `json:"ps,omitempty"`          // success with exactly this partial_success (overrides Partial)
+}
+
+// PSpec spells out the partial_success field of an OK / 200 response.
+type PSpec struct {
+	Present  bool   `json:"present"`
+	Rejected int64  `json:"rejected"`
+	Msg      string `json:"msg"`
 }
 
 type Scenario struct {
@@ -154,15 +162,29 @@ func (c *collector) resp(idx int) Resp {
 	return Resp{Code: 0}
 }
 
-func partialBody(sig int, token string) []byte {
+// psOf: the partial_success a scripted success carries (nil: none).
+func psOf(rs Resp, token string) *PSpec {
+	if rs.PS != nil {
+		if !rs.PS.Present {
+			return nil
+		}
+		return rs.PS
+	}
+	if rs.Partial {
+		return &PSpec{Present: true, Rejected: 3, Msg: token}
+	}
+	return nil
+}
+
+func partialBody(sig int, ps *PSpec) []byte {
 	var m proto.Message
 	switch sig {
 	case 0:
-		m = &coltracepb.ExportTraceServiceResponse{PartialSuccess: &coltracepb.ExportTracePartialSuccess{RejectedSpans: 3, ErrorMessage: token}}
+		m = &coltracepb.ExportTraceServiceResponse{PartialSuccess: &coltracepb.ExportTracePartialSuccess{RejectedSpans: ps.Rejected, ErrorMessage: ps.Msg}}
 	case 1:
-		m = &colmetricpb.ExportMetricsServiceResponse{PartialSuccess: &colmetricpb.ExportMetricsPartialSuccess{RejectedDataPoints: 3, ErrorMessage: token}}
+		m = &colmetricpb.ExportMetricsServiceResponse{PartialSuccess: &colmetricpb.ExportMetricsPartialSuccess{RejectedDataPoints: ps.Rejected, ErrorMessage: ps.Msg}}
 	default:
-		m = &collogpb.ExportLogsServiceResponse{PartialSuccess: &collogpb.ExportLogsPartialSuccess{RejectedLogRecords: 3, ErrorMessage: token}}
+		m = &collogpb.ExportLogsServiceResponse{PartialSuccess: &collogpb.ExportLogsPartialSuccess{RejectedLogRecords: ps.Rejected, ErrorMessage: ps.Msg}}
 	}
 	b, _ := proto.Marshal(m)
 	return b
@@ -183,10 +205,10 @@ func (c *collector) ServeHTTP(w http.ResponseWriter, r *http.Request) {
 		w.Header().Set("Retry-After", rs.RetryAfter)
 	}
 	switch {
-	case rs.Partial:
+	case psOf(rs, c.sc.Token) != nil && rs.Status >= 200 && rs.Status <= 299:
 		w.Header().Set("Content-Type", "application/x-protobuf")
 		w.WriteHeader(rs.Status)
-		w.Write(partialBody(signal(c.sc.Exporter), c.sc.Token))
+		w.Write(partialBody(signal(c.sc.Exporter), psOf(rs, c.sc.Token)))
 	case rs.Status >= 200 && rs.Status <= 299:
 		w.WriteHeader(rs.Status)
 	default:
@@ -207,21 +229,21 @@ func (c *collector) ServeHTTP(w http.ResponseWriter, r *http.Request) {
 	}
 }
 
-func (c *collector) grpcAnswer(ctx context.Context, req proto.Message) (bool, error) {
+func (c *collector) grpcAnswer(ctx context.Context, req proto.Message) (*PSpec, error) {
 	b, _ := proto.MarshalOptions{Deterministic: true}.Marshal(req)
 	md, _ := metadata.FromIncomingContext(ctx)
 	v := md.Get("x-verif-hdr")
 	idx := c.next(b, len(v) == 1 && v[0] == "v")
 	if c.sc.Hang {
 		c.hang(ctx)
-		return false, status.Error(codes.Unavailable, "hung")
+		return nil, status.Error(codes.Unavailable, "hung")
 	}
 	rs := c.resp(idx)
 	if c.after != nil {
 		defer c.after(idx)
 	}
 	if rs.Code == 0 {
-		return rs.Partial, nil
+		return psOf(rs, c.sc.Token), nil
 	}
 	st := status.New(codes.Code(rs.Code), "scripted failure")
 	if rs.HasInfo {
@@ -230,7 +252,7 @@ func (c *collector) grpcAnswer(ctx context.Context, req proto.Message) (bool, er
 			st = st2
 		}
 	}
-	return false, st.Err()
+	return nil, st.Err()
 }
 
 type traceSvc struct {
@@ -244,8 +266,8 @@ func (s traceSvc) Export(ctx context.Context, req *coltracepb.ExportTraceService
 		return nil, err
 	}
 	out := &coltracepb.ExportTraceServiceResponse{}
-	if p {
-		out.PartialSuccess = &coltracepb.ExportTracePartialSuccess{RejectedSpans: 3, ErrorMessage: s.c.sc.Token}
+	if p != nil {
+		out.PartialSuccess = &coltracepb.ExportTracePartialSuccess{RejectedSpans: p.Rejected, ErrorMessage: p.Msg}
 	}
 	return out, nil
 }
@@ -261,8 +283,8 @@ func (s metricSvc) Export(ctx context.Context, req *colmetricpb.ExportMetricsSer
 		return nil, err
 	}
 	out := &colmetricpb.ExportMetricsServiceResponse{}
-	if p {
-		out.PartialSuccess = &colmetricpb.ExportMetricsPartialSuccess{RejectedDataPoints: 3, ErrorMessage: s.c.sc.Token}
+	if p != nil {
+		out.PartialSuccess = &colmetricpb.ExportMetricsPartialSuccess{RejectedDataPoints: p.Rejected, ErrorMessage: p.Msg}
 	}
 	return out, nil
 }
@@ -278,8 +300,8 @@ func (s logSvc) Export(ctx context.Context, req *collogpb.ExportLogsServiceReque
 		return nil, err
 	}
 	out := &collogpb.ExportLogsServiceResponse{}
-	if p {
-		out.PartialSuccess = &collogpb.ExportLogsPartialSuccess{RejectedLogRecords: 3, ErrorMessage: s.c.sc.Token}
+	if p != nil {
+		out.PartialSuccess = &collogpb.ExportLogsPartialSuccess{RejectedLogRecords: p.Rejected, ErrorMessage: p.Msg}
 	}
 	return out, nil
 }
@@ -1765,6 +1787,52 @@ func main() {
 				"export": b.Tokens[i], "observed": ob}
 			w.Tally(fmt.Sprintf("burst:gzip=%v", b.Gzip))
 			w.Add(term, desc, fmt.Sprintf("burst-gzip=%v-%s", b.Gzip, exporterNames[b.Exporter]), true)
+		}
+	}
+	// partial_success matrix, one export at a time with nothing else in flight: every partial-success report the handler
+	// receives during an export belongs to it (a report without message text could not be attributed otherwise)
+	countPS := func() int {
+		handledMu.Lock()
+		defer handledMu.Unlock()
+		n := 0
+		for _, m := range handledMsgs {
+			if strings.Contains(strings.ToLower(m), "partial success") {
+				n++
+			}
+		}
+		return n
+	}
+	psMatrix := []PSpec{{Present: true, Rejected: 0, Msg: "warning text"}, {Present: true, Rejected: 5, Msg: ""},
+		{Present: true, Rejected: 2, Msg: "some were rejected"}, {Present: true, Rejected: 0, Msg: ""}, {Present: false}}
+	for e := 0; e < 6; e++ {
+		for pi := range psMatrix {
+			ps := psMatrix[pi]
+			sc := Scenario{Exporter: e, Enabled: true, Initial: 2 * time.Millisecond, MaxElapsed: 20 * time.Second, CancelAt: -1, ShutdownAt: -1,
+				Token: fmt.Sprintf("psk%d%dx", e, pi), Kind: "partial-success"}
+			if isHTTP(e) {
+				sc.Script = []Resp{{Status: 200, PS: &ps}}
+			} else {
+				sc.Script = []Resp{{Code: 0, PS: &ps}}
+			}
+			before := countPS()
+			ob, fail, inc := runScenario(&sc, 30*time.Second)
+			reports := countPS() - before
+			desc := map[string]any{"exporter": exporterNames[e], "partial_success": ps, "observed": ob, "partial_success_reports": reports}
+			if fail != "" {
+				w.Violation(fail, desc)
+				continue
+			}
+			if inc != "" || ob.Attempts != 1 {
+				inconclusive++
+				w.Tally("inconclusive:partial-success")
+				continue
+			}
+			pinfo := "NoPartial"
+			if ps.Present {
+				pinfo = vgen.App("Partial", vgen.N(uint64(ps.Rejected)), vgen.Bool(ps.Msg != ""))
+			}
+			w.Tally(fmt.Sprintf("partial-success:present=%v,rejected=%d,msg=%v->reports=%d", ps.Present, ps.Rejected, ps.Msg != "", reports))
+			w.Add(vgen.App("CPartial", vgen.N(uint64(e)), pinfo, vgen.N(uint64(ob.ErrClass)), vgen.N(uint64(reports))), desc, "partial-success-"+exporterNames[e], true)
 		}
 	}
 	w.Extra["inconclusive"] = inconclusive
